@@ -53,46 +53,89 @@ pub fn guarded<F: FnOnce() -> String>(f: F) -> String {
     }
 }
 
+/// Output buffer with sharding, resumption and a watchdog: a case whose
+/// observation takes longer than `TIMEOUT_MS` is reported as `timeout`, the
+/// buffer is flushed and the process exits with status 3 after printing
+/// `RESUME <next case index>` on stderr (the driver restarts from there).
 pub struct Out {
     pub lines: usize,
     idx: usize,
     shard: usize,
     shards: usize,
+    start_at: usize,
+    shared: std::sync::Arc<std::sync::Mutex<Shared>>,
+}
+
+struct Shared {
     buf: String,
+    pending: Option<(String, std::time::Instant, usize)>,
+}
+
+pub const TIMEOUT_MS: u64 = 3000;
+
+fn write_stdout(s: &str) {
+    use std::io::Write;
+    let stdout = std::io::stdout();
+    let mut h = stdout.lock();
+    let _ = h.write_all(s.as_bytes());
+    let _ = h.flush();
 }
 
 impl Out {
-    pub fn new(shard: usize, shards: usize) -> Self {
-        Out { lines: 0, idx: 0, shard, shards: shards.max(1), buf: String::with_capacity(1 << 20) }
+    pub fn new(shard: usize, shards: usize, start_at: usize) -> Self {
+        let shared = std::sync::Arc::new(std::sync::Mutex::new(Shared { buf: String::with_capacity(1 << 20), pending: None }));
+        let w = std::sync::Arc::clone(&shared);
+        let _ = std::thread::spawn(move || loop {
+            std::thread::sleep(std::time::Duration::from_millis(100));
+            let mut g = match w.lock() { Ok(g) => g, Err(p) => p.into_inner() };
+            if let Some((header, since, idx)) = g.pending.clone() {
+                if since.elapsed().as_millis() as u64 > TIMEOUT_MS {
+                    let mut out = std::mem::take(&mut g.buf);
+                    out.push_str(&header);
+                    out.push_str("\ttimeout\n");
+                    write_stdout(&out);
+                    eprintln!("RESUME {}", idx + 1);
+                    std::process::exit(3);
+                }
+            }
+        });
+        Out { lines: 0, idx: 0, shard, shards: shards.max(1), start_at, shared }
     }
     /// Emit one case. The observation is computed only if the case belongs to
     /// this shard (cases are numbered in generation order).
     pub fn case<F: FnOnce() -> String>(&mut self, family: &str, fields: &[String], obs: F) {
-        let mine = self.idx % self.shards == self.shard;
+        let idx = self.idx;
+        let mine = idx % self.shards == self.shard && idx >= self.start_at;
         self.idx += 1;
         if !mine {
             return;
         }
-        let obs = obs();
-        self.buf.push_str(family);
+        let mut header = String::from(family);
         for f in fields {
-            self.buf.push('\t');
-            self.buf.push_str(f);
+            header.push('\t');
+            header.push_str(f);
         }
-        self.buf.push('\t');
-        self.buf.push_str(&obs);
-        self.buf.push('\n');
+        {
+            let mut g = self.shared.lock().unwrap();
+            g.pending = Some((header.clone(), std::time::Instant::now(), idx));
+        }
+        let obs = obs();
+        let mut g = self.shared.lock().unwrap();
+        g.pending = None;
+        g.buf.push_str(&header);
+        g.buf.push('\t');
+        g.buf.push_str(&obs);
+        g.buf.push('\n');
         self.lines += 1;
-        if self.buf.len() > (1 << 20) {
-            self.flush();
+        if g.buf.len() > (1 << 20) {
+            let out = std::mem::take(&mut g.buf);
+            write_stdout(&out);
         }
     }
     pub fn flush(&mut self) {
-        use std::io::Write;
-        let stdout = std::io::stdout();
-        let mut h = stdout.lock();
-        let _ = h.write_all(self.buf.as_bytes());
-        self.buf.clear();
+        let mut g = self.shared.lock().unwrap();
+        let out = std::mem::take(&mut g.buf);
+        write_stdout(&out);
     }
 }
 
